@@ -10,6 +10,45 @@ pub fn oneshot(sub: &str, _rest: &[String], out: &mut dyn Write) -> bool {
             writeln!(out, "{}\t{}", d[0], d[1]).unwrap();
             true
         }
+        // cargocb <depfile|-> <formatter none|rustfmt|prettyplease> <header> [clang args...]
+        // runs a real generation with CargoCallbacks plus a recording callback; stdout carries the
+        // cargo lines (printed by bindgen itself) and "CB <kind> <percent-encoded arg>" lines.
+        "cargocb" => {
+            #[derive(Debug)]
+            struct Rec;
+            impl bindgen::callbacks::ParseCallbacks for Rec {
+                fn header_file(&self, f: &str) {
+                    println!("CB header_file {}", enc(f));
+                }
+                fn include_file(&self, f: &str) {
+                    println!("CB include_file {}", enc(f));
+                }
+                fn read_env_var(&self, k: &str) {
+                    println!("CB read_env_var {}", enc(k));
+                }
+            }
+            let mut b = bindgen::Builder::default()
+                .header(dec(&_rest[2]))
+                .parse_callbacks(Box::new(bindgen::CargoCallbacks::new()))
+                .parse_callbacks(Box::new(Rec))
+                .clang_args(_rest[3..].iter().map(|s| dec(s)));
+            b = b.formatter(match _rest[1].as_str() {
+                "rustfmt" => bindgen::Formatter::Rustfmt,
+                "prettyplease" => bindgen::Formatter::Prettyplease,
+                _ => bindgen::Formatter::None,
+            });
+            if _rest[0] != "-" {
+                b = b.depfile("out.rs", dec(&_rest[0]));
+            }
+            match b.generate() {
+                Ok(bindings) => {
+                    let s = bindings.to_string();
+                    println!("OK {}", s.len());
+                }
+                Err(e) => println!("ERR {}", enc(&e.to_string())),
+            }
+            true
+        }
         _ => false,
     }
 }
@@ -48,6 +87,23 @@ pub fn dispatch(sub: &str, f: &[&str]) -> String {
         // post <merge 0/1> <sort 0/1> <src>
         "post" => match vh::postprocess(&dec(f[2]), f[0] == "1", f[1] == "1") {
             Ok(s) => format!("OK {}", enc(&s)),
+            Err(e) => format!("ERR {}", enc(&e)),
+        },
+        // posttree <merge 0/1> <sort 0/1> <src> : postprocess then canonical tree of the result
+        "posttree" => match vh::postprocess(&dec(f[2]), f[0] == "1", f[1] == "1") {
+            Ok(s) => match crate::tree::of_source(&s) {
+                Ok(t) => format!("OK {}", t),
+                Err(e) => format!("ERR reparse {}", enc(&e)),
+            },
+            Err(e) => format!("ERR {}", enc(&e)),
+        },
+        "inventory" => match crate::tree::inventory(&dec(f[0])) {
+            Ok(t) => format!("OK {}", t),
+            Err(e) => format!("ERR {}", enc(&e)),
+        },
+        // tree <src> : canonical tree of the source itself
+        "tree" => match crate::tree::of_source(&dec(f[0])) {
+            Ok(t) => format!("OK {}", t),
             Err(e) => format!("ERR {}", enc(&e)),
         },
         // names <abi|-|?> <canonical> <mangled>
